@@ -211,6 +211,18 @@ def r3_join(ctx) -> None:
     var = m.args.vararg.arg if m.args.vararg else None
     if var is None:
         ctx.broken("TypeBound.join: expected a *bs parameter")
+    # locals that only name a member of the lattice (`linear = TypeBound.Any`, bound once) are that member
+    from .. import norm as _norm
+    import copy as _copy
+    stores = {}
+    for n in ast.walk(ast.Module(body=list(body), type_ignores=[])):
+        if isinstance(n, ast.Name) and isinstance(n.ctx, (ast.Store, ast.Del)):
+            stores[n.id] = stores.get(n.id, 0) + 1
+    names = {s_.targets[0].id: s_.value for s_ in body if isinstance(s_, ast.Assign) and len(s_.targets) == 1 and isinstance(s_.targets[0], ast.Name)
+             and stores.get(s_.targets[0].id) == 1 and u(s_.value) in ("TypeBound.Copyable", "TypeBound.Any")}
+    if names:
+        body = [ast.fix_missing_locations(_norm._Subst(dict(names)).visit(_copy.deepcopy(s_))) for s_ in body
+                if not (isinstance(s_, ast.Assign) and len(s_.targets) == 1 and isinstance(s_.targets[0], ast.Name) and s_.targets[0].id in names)]
     # shape: init*, for b in bs: BODY, return res
     loops = [s for s in body if isinstance(s, ast.For)]
     if len(loops) != 1 or not isinstance(loops[0].target, ast.Name) or u(loops[0].iter) != var or loops[0].orelse:
